@@ -23,18 +23,44 @@ CLOSED = 'usim._basics.streams.StreamClosed'
 REGISTRY = 'self._consumer_buffers'
 
 
-def _is_register(event):
-    return event.kind == 'store' and event.get('base') == REGISTRY and \
-        isinstance(event.node, ast.Subscript)
+def _registry_subscript(path, index, node) -> bool:
+    return isinstance(node, ast.Subscript) and \
+        rules.value_text(path, index, node.value) == REGISTRY
 
 
-def _is_deregister(event):
-    return event.kind == 'del' and event.get('base') == REGISTRY
+def _registrations(path):
+    """[(index, key origin, buffer origin)] of `_consumer_buffers[key] = buffer`"""
+    result = []
+    for index, event in enumerate(path.events):
+        if event.kind == 'store' and _registry_subscript(path, index, event.node) and \
+                event['value'] is not None:
+            result.append((index, rules.origin(path, index, event.node.slice),
+                           rules.origin(path, index, event['value'])))
+    return result
+
+
+def _deregistrations(path):
+    return [(index, rules.origin(path, index, event.node.slice))
+            for index, event in enumerate(path.events)
+            if event.kind == 'del' and _registry_subscript(path, index, event.node)]
+
+
+def _buffer_local(path, callee, registration):
+    """name of the local of the entry function that holds the registered buffer"""
+    index, _key, (_text, made_at) = registration
+    value = path.events[index]['value']
+    for pos, event in enumerate(path.events):
+        if event.kind != 'store' or event.fn is not callee.fn or \
+                not isinstance(event.node, ast.Name):
+            continue
+        if event.data.get('value') is value or (made_at is not None and pos == made_at):
+            return event.node.id
+    return None
 
 
 def run(check, an: Analysis):
     check.rule('P', 'registration pairing: `_consumer_buffers[key] = buffer` is followed by '
-                    '`del _consumer_buffers[key]` on every exit (same key)')
+                    '`del _consumer_buffers[key]` on every exit (same fresh key)')
     check.rule('B', 'broadcast: put appends the item to every registered buffer and wakes '
                     'all waiters in one atomic block, dominated by `not _closed`')
     check.rule('T', 'exit tests: iteration ends only on (buffer empty and closed); '
@@ -46,26 +72,40 @@ def run(check, an: Analysis):
     await_ = an.callee(CHANNEL, '__await__')
     put = an.callee(CHANNEL, 'put')
     close = an.callee(CHANNEL, 'close')
+    buffers = {}
 
     # ---- P ------------------------------------------------------------------
     for callee in (await_, aiter):
         paths = an.paths(callee)
         registered = 0
+        fresh_ok, empty_ok = True, True
         exits = {}
         for path in paths:
-            reg = [i for i, e in enumerate(path.events) if _is_register(e)]
-            if not reg:
+            regs = _registrations(path)
+            if not regs:
                 continue
             registered += 1
-            dereg = [i for i, e in enumerate(path.events) if _is_deregister(e) and i > reg[0]]
-            same_key = bool(dereg) and ast.unparse(path.events[dereg[0]].node.slice) == \
-                ast.unparse(path.events[reg[0]].node.slice)
+            first = regs[0]
+            # every subscription has its own key and its own empty buffer
+            fresh_ok &= len(regs) == 1 and first[1][0] == 'object()' and \
+                first[1][1] is not None
+            empty_ok &= first[2][0] in ('[]', 'deque()', 'list()', 'collections.deque()')
+            name = _buffer_local(path, callee, first)
+            if name is not None:
+                buffers.setdefault(callee.fn.qn, set()).add(name)
+            dereg = [d for d in _deregistrations(path) if d[0] > first[0]]
+            same_key = bool(dereg) and dereg[0][1] == first[1]
             out = path.kind if path.kind != 'raise' else 'raise ' + path.outcome[1].cls.rsplit(
                 '.', 1)[-1]
             key = (out, len(dereg) == 1 and same_key)
             exits.setdefault(key, path)
         check.instance('P', '%s:registers' % short(callee.fn.qn), registered > 0,
                        where_fn(callee.fn), 'a consumer buffer is registered')
+        check.instance('P', '%s:own-key-and-buffer' % short(callee.fn.qn),
+                       fresh_ok and empty_ok and registered > 0, where_fn(callee.fn),
+                       'registered under a fresh `object()` of this very subscription '
+                       '(%s) with a new empty buffer (%s): subscriptions never share an '
+                       'entry' % (fresh_ok, empty_ok))
         for (out, ok), path in sorted(exits.items(), key=lambda kv: repr(kv[0])):
             check.instance('P', '%s:exit=%s' % (short(callee.fn.qn), out), ok,
                            where_fn(callee.fn),
@@ -75,35 +115,38 @@ def run(check, an: Analysis):
     check.floor('P', 8, 'exits of Channel.__await__/__aiter__')
     # ---- B ------------------------------------------------------------------
     put_paths = an.paths(put)
-    loops = [n for n in ast.walk(put.fn.node) if isinstance(n, ast.For)]
-    ok_loop = False
-    for loop in loops:
-        iter_text = ast.unparse(loop.iter)
-        if iter_text == REGISTRY + '.values()':
-            simple = len(loop.body) == 1 and isinstance(loop.body[0], ast.Expr) and \
-                isinstance(loop.body[0].value, ast.Call) and \
-                isinstance(loop.body[0].value.func, ast.Attribute) and \
-                loop.body[0].value.func.attr == 'append' and \
-                isinstance(loop.body[0].value.func.value, ast.Name) and \
-                isinstance(loop.target, ast.Name) and \
-                loop.body[0].value.func.value.id == loop.target.id and \
-                len(loop.body[0].value.args) == 1 and not loop.orelse
-            item_ok = simple and isinstance(loop.body[0].value.args[0], ast.Name) and \
-                rules._is_param(put.fn, loop.body[0].value.args[0].id)
-            ok_loop = simple and item_ok
-            check.instance('B', 'put:loop-over-all-buffers', ok_loop,
-                           '%s:%d' % (put.fn.module.relpath, loop.lineno),
-                           'an unconditional `for buffer in _consumer_buffers.values(): '
-                           'buffer.append(item)` without break/filter')
-    if not loops:
-        check.instance('B', 'put:loop-over-all-buffers', False, where_fn(put.fn),
-                       'put has no loop over the registered consumer buffers')
+    item = put.fn.node.args.args[1].arg
+    loop_ok, n_iter, bad = True, 0, None
+    for path in put_paths:
+        for it in rules.iterations(path):
+            if REGISTRY not in it.source:
+                continue
+            n_iter += 1
+            appends = [(i, e) for i, e in it.events()
+                       if e.kind == 'call' and isinstance(e.node, ast.Call)
+                       and isinstance(e.node.func, ast.Attribute)
+                       and e.node.func.attr == 'append'
+                       and ast.unparse(e.node.func.value) == it.var]
+            tests = [e for _i, e in it.events() if e.kind == 'test']
+            good = it.source == REGISTRY + '.values()' and len(appends) == 1 and \
+                not tests and rules.loop_completed(path, it.node) and \
+                [rules.value_text(path, appends[0][0], a)
+                 for a in appends[0][1].node.args] == [item]
+            if not good:
+                loop_ok, bad = False, bad or (path, it.start)
+    check.instance('B', 'put:loop-over-all-buffers', loop_ok and n_iter > 0,
+                   where_fn(put.fn), 'an unconditional `for buffer in '
+                   '_consumer_buffers.values(): buffer.append(item)` without break/filter '
+                   '(%d iterations on paths)' % n_iter,
+                   path=rules.path_lines(*bad) if bad else None, analysed=n_iter)
     n_wake = 0
     for path in put_paths:
         for index, event in enumerate(path.events):
-            if is_call_to(event, '__awake_all__'):
+            if is_call_to(event, '__awake_all__') and event.kind == 'call':
                 n_wake += 1
                 open_ = rules.fact_value(event, ('truth', 'self._closed'))
+                if open_ is None:
+                    open_ = rules.path_atoms(path, 0, index).get(('truth', 'self._closed'))
                 block = rules.atomic_block(path, index)
                 looped = any(e.kind in ('iter-end',) for e in block)
                 check.instance('B', 'put:wake-all-open', open_ is False and looped,
@@ -136,7 +179,9 @@ def run(check, an: Analysis):
         tests = [e for e in path.events if e.kind == 'test' and e.depth == 0]
         last_susp = max([i for i, e in enumerate(path.events) if is_suspension(e)] or [-1])
         tail = [e for e in path.events[last_susp + 1:] if e.kind == 'test']
-        empty = any(e.get('key') == ('truth', 'buffer') and e['value'] is False for e in tail)
+        names = buffers.get(aiter.fn.qn, {'buffer'})
+        empty = any(e.get('key') and e['key'][0] == 'truth' and e['key'][1] in names
+                    and e['value'] is False for e in tail)
         closed = any(e.get('key') == ('truth', 'self._closed') and e['value'] is True
                      for e in tail)
         check.instance('T', 'aiter:ends-on-empty-and-closed', empty and closed,
@@ -150,7 +195,8 @@ def run(check, an: Analysis):
             event = [e for e in path.events if e.kind == 'raise'][-1]
             waited = any(e.kind == 'susp' and is_suspension(e) for e in path.events)
             if waited:
-                empty = rules.fact_value(event, ('truth', 'buffer')) is False
+                empty = any(rules.fact_value(event, ('truth', name)) is False
+                            for name in buffers.get(await_.fn.qn, {'buffer'}))
                 closed = rules.fact_value(event, ('truth', 'self._closed')) is True
                 check.instance('T', 'await:raises-only-empty-and-closed', empty and closed,
                                event.where, 'after waiting, StreamClosed only when no '
@@ -164,7 +210,8 @@ def run(check, an: Analysis):
         elif path.kind == 'return':
             value = path.outcome[1]
             ok = isinstance(value, ast.Subscript) and isinstance(value.slice, ast.Constant) \
-                and value.slice.value == 0 and ast.unparse(value.value) == 'buffer'
+                and value.slice.value == 0 and ast.unparse(value.value) in buffers.get(
+                    await_.fn.qn, {'buffer'})
             check.instance('T', 'await:returns-first-message', ok, where_fn(await_.fn),
                            'the first message put after subscribing is returned: %s'
                            % ast.unparse(value), path=rules.path_lines(path))
@@ -172,7 +219,8 @@ def run(check, an: Analysis):
     n = 0
     for path in an.paths(aiter):
         for index, event in enumerate(path.events):
-            if event.kind == 'call' and call_receiver(event) == 'buffer' and \
+            if event.kind == 'call' and call_receiver(event) in buffers.get(
+                    aiter.fn.qn, {'buffer'}) and \
                     event.node.func.attr in ('popleft', 'pop') and event.get('exit') == 'normal':
                 n += 1
                 nxt = None
@@ -191,21 +239,24 @@ def run(check, an: Analysis):
     check.instance('W', 'aiter:pops', n > 0, where_fn(aiter.fn),
                    'iteration takes messages from its buffer')
     # ---- F ------------------------------------------------------------------
-    for callee in (aiter, await_, put):
-        for node in ast.walk(callee.fn.node):
-            if isinstance(node, ast.Call) and isinstance(node.func, ast.Attribute) and \
-                    isinstance(node.func.value, ast.Name) and node.func.value.id == 'buffer':
-                name = node.func.attr
-                ok = name in ('append', 'popleft')
-                check.instance('F', '%s:buffer.%s' % (short(callee.fn.qn), name), ok,
-                               '%s:%d' % (callee.fn.module.relpath, node.lineno),
-                               'FIFO operation on a consumer buffer' if ok else
-                               'operation breaks the FIFO discipline', nontrivial=False)
-            if isinstance(node, ast.Call) and ast.unparse(node.func) in (
-                    'deque', 'list') and node.args:
-                check.instance('F', '%s:buffer-prefilled' % short(callee.fn.qn), False,
-                               '%s:%d' % (callee.fn.module.relpath, node.lineno),
-                               'a consumer buffer must start empty')
+    for callee in (aiter, await_):
+        names = buffers.get(callee.fn.qn, set())
+        seen = {}
+        for path in an.paths(callee):
+            for index, event in enumerate(path.events):
+                node = event.node
+                if event.kind == 'call' and isinstance(node, ast.Call) and \
+                        isinstance(node.func, ast.Attribute) and \
+                        isinstance(node.func.value, ast.Name) and \
+                        node.func.value.id in names and event.fn is callee.fn:
+                    seen[node.func.attr] = event.where
+        for name, where in sorted(seen.items()):
+            ok = name in ('popleft',)
+            check.instance('F', '%s:buffer.%s' % (short(callee.fn.qn), name), ok, where,
+                           'FIFO operation on a consumer buffer' if ok else
+                           'operation breaks the FIFO discipline', nontrivial=False)
+    check.instance('F', 'put:buffer.append', loop_ok and n_iter > 0, where_fn(put.fn),
+                   'messages join a consumer buffer at its end', nontrivial=False)
     check.floor('F', 2)
     check.stats.update(an.stats())
 
